@@ -718,6 +718,22 @@ def _value_domain(repo, c, f, e, depth=0):
                         or (isinstance(t, ast.Tuple) and any(isinstance(x, ast.Name) and x.id == e.id for x in t.elts))
                         for t in n.targets)]
         if not defs:
+            # a parameter of a helper method: the domain of what the class's own callers pass for it (all call sites must agree)
+            params = [a.arg for a in f.node.args.args]
+            if e.id in params and params and params[0] == "self":
+                pos = params.index(e.id) - 1
+                doms = set()
+                for k in repo.mro(c):
+                    for g in k.methods.values():
+                        if g is f or repo.resolve(c, g.name, "method") is not g:
+                            continue
+                        for n in fn_walk(g.node):
+                            if isinstance(n, ast.Call) and isinstance(n.func, ast.Attribute) and self_attr(n.func) == f.name:
+                                arg = n.args[pos] if pos < len(n.args) else next((kw.value for kw in n.keywords if kw.arg == e.id), None)
+                                if arg is not None:
+                                    doms.add(_value_domain(repo, c, g, arg, depth + 1))
+                if len(doms) == 1:
+                    return doms.pop()
             return None
         return _value_domain(repo, c, f, defs[-1].value, depth + 1)
     if isinstance(e, ast.Call):
